@@ -259,6 +259,9 @@ impl State {
         for chunk in fields[1..].chunks(2) {
             let row_name = RowName(chunk[0].to_string());
             let coefficient = chunk[1].parse()?;
+            if row_name != self.mps.objective_name && !self.mps.a.contains_key(&row_name) {
+                return Err(MpsParseError::UnknownRowName(row_name.0));
+            }
             self.mps.b.insert(row_name, coefficient);
         }
         Ok(())
